@@ -28,7 +28,10 @@ func DefaultParams() Params {
 
 // Validate validates a set of params
 func (p Params) Validate() error {
-	return validatePoolCreationFee(p.PoolCreationFee)
+	if err := validatePoolCreationFee(p.PoolCreationFee); err != nil {
+		return err
+	}
+	return validateTaxRate(p.TaxRate)
 }
 
 // String returns a human readable string representation of the parameters.
@@ -53,6 +56,10 @@ func validateTaxRate(i interface{}) error {
 	v, ok := i.(math.LegacyDec)
 	if !ok {
 		return fmt.Errorf("invalid parameter type: %T", i)
+	}
+
+	if v.IsNil() {
+		return fmt.Errorf("tax rate must be set")
 	}
 
 	if !v.GT(math.LegacyZeroDec()) || !v.LT(math.LegacyOneDec()) {
